@@ -6,3 +6,4 @@ pub mod ds;
 pub mod file;
 pub mod negotiate;
 pub mod pdu;
+pub mod rle;
